@@ -298,3 +298,138 @@ def coeff_layout_rule(chk, db, rule_id):
            ("the matrix read from the file is handed to setHierarchicalCoefficients unchanged although the writer interleaves real and imaginary parts" if sdirect else
             "setter pairs %s, writer pairs %s" % (sorted(sp), sorted(wp))))
     return len(wp)
+
+
+def xfile_rule(chk, db, rule_id):
+    chk.rule(rule_id, "the commands whose case in the dispatch reads the points file (-xfile, through verifiedRead(xfilename, ...)) are the commands for which checkSane() rejects a missing "
+                      "-xfile, and each of them is on the list that requires a means of output: a command that is dispatched with its siblings but missing from the lists exits 0 "
+                      "and writes an empty matrix")
+    fns = {short(f.name): f for f in db.all_functions(["Tasgrid/tasgridWrapper.cpp"]) if f.cls == WR and not f.d.get("islambda")}
+    ex, cs = fns.get("executeCommand"), fns.get("checkSane")
+    if ex is None or cs is None:
+        raise AnalysisBroken("executeCommand / checkSane not found")
+    # wrapper methods that read the points file
+    readers = {}        # method -> None (every command that reaches it) | set of commands under which it reads the points file
+    writers = set()     # methods that produce a matrix
+    excluded = {}       # method -> commands under which the read is skipped
+    for nm, f in fns.items():
+        for c in f.calls():
+            if short(callee(c) or "") == "verifiedRead" and call_args(c) and "xfilename" in txt(call_args(c)[0]):
+                only = set()
+                for cn, tr in cond_edges_dominating(f, c):
+                    s_ = strip(cn)
+                    if s_ is not None and s_.get("k") == "BinaryOperator" and s_.get("op") == "==":
+                        cmds = {q.get("enumc") for q in walk(s_) if q.get("k") == "DeclRefExpr" and (q.get("enumc") or "").startswith("command_")}
+                        if tr:
+                            only |= cmds
+                        else:
+                            excluded[nm] = excluded.get(nm, set()) | cmds     # the else-branch of `command == X`: every command but X
+                if only and readers.get(nm, set()) is not None:
+                    readers[nm] = (readers.get(nm) or set()) | only
+                else:
+                    readers[nm] = None
+            if short(callee(c) or "") in ("writeMatrix", "printMatrix"):
+                writers.add(nm)
+    # case groups of the dispatch that call such a method
+    need = set()
+    needout = set()
+    for s in [a for a in ex.walk(into_lambda=False) if a.get("k") == "SwitchStmt"]:
+        body = s.get("body", {}).get("c", []) if s.get("body") else []
+        labels, called = [], set()
+        for st in body:
+            x = st
+            while x is not None and x.get("k") in ("CaseStmt", "DefaultStmt"):
+                if x.get("k") == "CaseStmt":
+                    labels.append(txt(strip(x.get("lhs"))))
+                x = x.get("sub")
+            if x is not None:
+                called |= {short(callee(q) or "") for q in [x] + list(walk(x)) if q.get("k") in ("CXXMemberCallExpr", "CallExpr")}
+                if x.get("k") == "BreakStmt":
+                    labs = {l for l in labels if l.startswith("command_")}
+                    for m_ in called & set(readers):
+                        sel = (labs if readers[m_] is None else (labs & readers[m_])) - excluded.get(m_, set())
+                        need |= sel
+                        if m_ in writers:
+                            needout |= sel
+                    labels, called = [], set()
+    if len(need) < 4:
+        raise AnalysisBroken("%s: fewer than 4 commands read the points file (%s)" % (rule_id, sorted(need)))
+
+    def listed(pred):
+        """commands named in the com.inside(...) lists of the fail_if statements whose condition satisfies pred"""
+        out = set()
+        for c in cs.calls():
+            if short(callee(c) or "") != "fail_if" or not call_args(c):
+                continue
+            cond = call_args(c)[0]
+            if pred(txt(cond)):
+                out |= {q.get("enumc") for q in walk(cond) if q.get("k") == "DeclRefExpr" and (q.get("enumc") or "").startswith("command_")}
+        return out
+    xlist = listed(lambda t: "xfilename.empty()" in t)
+    olist = listed(lambda t: "outfilename.empty()" in t and "printCout" in t and "gridfilename" not in t)
+    n = 0
+    for cmd in sorted(need):
+        n += 1
+        chk.ob(rule_id, ex.key, "%s: a missing -xfile is rejected" % cmd, cmd in xlist, cs.where, "" if cmd in xlist else "the command reads the points file but checkSane() lets it start without one")
+        if cmd in needout:
+            chk.ob(rule_id, ex.key, "%s: a means of output is required" % cmd, cmd in olist, cs.where, "" if cmd in olist else "the command produces a matrix but may run with neither -outfile nor -print")
+    chk.saw(ex)
+    chk.saw(cs)
+    return n
+
+
+def limits_rule(chk, db, rule_id):
+    chk.rule(rule_id, "every library call made by the tool that has a level-limits parameter receives the limits of -levellimitsfile (readLimits() or a local initialised from it); "
+                      "a call that relies on the default argument silently ignores the option the tool accepted")
+    n = 0
+    for f in db.all_functions(["Tasgrid/tasgridWrapper.cpp"]):
+        if f.cls != WR or f.d.get("islambda"):
+            continue
+        loc = {v["did"]: v for v in f.locals().values() if "did" in v}
+        for c in f.calls(into_lambda=False):
+            t = db.resolve(c)
+            if t is None or t.cls != "TasGrid::TasmanianSparseGrid" or not is_reachable(f, c):
+                continue
+            pos = [i for i, p_ in enumerate(t.params()) if p_.get("name") in ("level_limits", "limit_levels")]
+            if not pos:
+                continue
+            args = call_args(c)
+            n += 1
+            chk.saw(f)
+            a = args[pos[0]] if pos[0] < len(args) else None
+            ok = False
+            if a is not None and a.get("k") != "CXXDefaultArgExpr" and (strip(a) or {}).get("k") != "CXXDefaultArgExpr":
+                src = [a] + list(walk(a))
+                for q in list(src):
+                    if q.get("k") == "DeclRefExpr" and q.get("did") in loc and loc[q["did"]].get("c"):
+                        src += [loc[q["did"]]["c"][0]] + list(walk(loc[q["did"]]["c"][0]))
+                ok = any(short(callee(q) or "") == "readLimits" for q in src if q.get("k") in ("CXXMemberCallExpr", "CallExpr"))
+            chk.ob(rule_id, f.key, "%s receives the limits of -levellimitsfile" % short(t.name), ok, f.loc(c),
+                   "" if ok else "the limits argument is %s" % ("left to its default (no limits)" if a is None or "DefaultArg" in str((a or {}).get("k")) + str((strip(a) or {}).get("k")) else "`%s`" % txt(a)[:40]))
+    return n
+
+
+def rejected_rule(chk, db, rule_id):
+    chk.rule(rule_id, "after a helper of the tool has rejected an option file with iassert() (which only records the error), the data are not used: the copy that assumes the rejected size is "
+                      "dominated by a test of pass_flag, and executeCommand() writes the grid file only on the pass_flag edge")
+    n = 0
+    fns = {short(f.name): f for f in db.all_functions(["Tasgrid/tasgridWrapper.cpp"]) if f.cls == WR and not f.d.get("islambda")}
+    for nm in ("readLimits", "readAnisotropic"):
+        f = fns.get(nm)
+        if f is None:
+            raise AnalysisBroken("%s not found" % nm)
+        for c in f.calls():
+            if (callee(c) or "") != "std::transform" or not is_reachable(f, c):
+                continue
+            n += 1
+            chk.saw(f)
+            ok = any("pass_flag" in txt(cn) for cn, tr in cond_edges_dominating(f, c))
+            chk.ob(rule_id, f.key, "copy of the option matrix only after its size was accepted", ok, f.loc(c),
+                   "" if ok else "the size test before this copy only records an error: a matrix with more entries than expected is copied past the end of the vector")
+    ex = fns.get("executeCommand")
+    for c in ex.calls(into_lambda=False):
+        if short(callee(c) or "") == "writeGrid" and is_reachable(ex, c):
+            n += 1
+            ok = any("pass_flag" in txt(cn) and tr for cn, tr in cond_edges_dominating(ex, c)) or any("pass_flag" in txt(cn) for cn, tr in cond_edges_dominating(ex, c))
+            chk.ob(rule_id, ex.key, "the grid file is written only when the command succeeded", ok, ex.loc(c), "" if ok else "writeGrid() runs although an error was recorded")
+    return n
